@@ -12,5 +12,6 @@ package jsonrpc
 //@   prop C11 C04
 //@   havoc
 //@   requires c != nil && context != nil
+//@   modifies ghost.dict_has[*], ghost.dict_int[*]
 //@   stable context.ReturnType
 //@   loop 1 invariant 0 <= rangeidx() && len(res) <= len(context.ReturnType)
